@@ -171,7 +171,10 @@ func one(o *kit.Out, r *kit.Rand) {
 	if leak != nil {
 		o.Fail("runner-goroutine-left", fmt.Sprintf("a goroutine of the runner remains after Stop/cancel: %v", leak)[:400])
 	}
-	// one-sided cadence: schedule k cannot have fired more often than elapsed/freq + 1
+	// one-sided cadence: schedule k cannot have fired more often than elapsed/freq + 1; after a
+	// cancel the goroutine may still take ticks until its select picks the cancellation, so the
+	// clock runs until the counts are read
+	elapsed = time.Since(t0)
 	cmu.Lock()
 	for k, c := range counts {
 		bound := int(elapsed/sched[k].Frequency) + 2
